@@ -119,8 +119,8 @@ def is_coercion_slot(cor):
 def check_one(ctx, pms, fmt, D, order_seed, doc, cor):
     case = {"fmt": fmt, "D": D, "order_seed": order_seed, "corruption": cor}
     bad_doc = DC.apply(fmt, doc, cor)
-    if bad_doc is None:
-        return False
+    if bad_doc is None or bad_doc == doc:
+        return False        # the corruption does not apply, or the 'invalid' value is what the document holds already
     import random as _random
     textin = DC.render(fmt, bad_doc, _random.Random(order_seed ^ len(str(cor))))
     kind = cor["kind"]
